@@ -501,16 +501,36 @@ def resolver(fn, stop=()):
             return None
         return defs[name][0]
 
-    def r(expr, depth=6):
+    top = {id(st) for st in fn.body}
+
+    def latest(name, lineno):
+        """several definitions, all of them top-level statements of the function (straight-line code): the one in force at `lineno`"""
+        ds = defs.get(name, [])
+        if name in params or name in stop or name in mutated or len(ds) < 2 or counts.get(name) != len(ds) or not all(id(d) in top for d in ds):
+            return None
+        before = [d for d in ds if d.lineno < lineno]
+        if not before:
+            return None
+        d = max(before, key=lambda x: x.lineno)
+        if isinstance(d.value, (ast.List, ast.Dict, ast.Set, ast.ListComp, ast.DictComp, ast.SetComp, ast.GeneratorExp)):
+            return None
+        return d
+
+    def r(expr, depth=8, at=None):
         if depth <= 0 or expr is None:
             return expr
 
         class T(ast.NodeTransformer):
             def visit_Name(self, n):
                 if isinstance(n.ctx, ast.Load):
+                    line = at if at is not None else getattr(n, 'lineno', 10 ** 9)
                     d = single(n.id)
-                    if d is not None and getattr(d, 'lineno', 0) <= getattr(n, 'lineno', 10 ** 9):
+                    if d is not None and getattr(d, 'lineno', 0) <= line:
                         return r(copy.deepcopy(d.value), depth - 1)
+                    d = latest(n.id, line)
+                    if d is not None:
+                        # the definition may refer to the previous value of the same name: resolve it as of its own line
+                        return r(copy.deepcopy(d.value), depth - 1, at=d.lineno)
                 return n
         return T().visit(copy.deepcopy(expr))
     r.single = single
